@@ -279,9 +279,9 @@ fn canary_fingerprint() -> String {
 /// outside the simulation; what `transpile_dir` itself does goes through the overrides and the
 /// interleaving scheduler like everything else.
 fn run_program_dir(p: &Program, tag: &str) -> (String, Vec<String>, Vec<String>, String) {
+    simlibc::set_bypass(true);
     let base = std::env::var("MSIM_PRIVATE").unwrap_or_else(|_| std::env::temp_dir().to_string_lossy().into_owned());
     let dir = format!("{base}/jobs/{tag}");
-    simlibc::set_bypass(true);
     let _ = std::fs::remove_dir_all(&dir);
     for f in &p.files {
         let fp = PathBuf::from(&dir).join("src").join(&f.path);
@@ -389,6 +389,7 @@ fn sim_thread(t: usize, s: Arc<Sched>, keep_log: bool) {
             write_set: ctx.write_set.clone(),
             fired: ctx.fired.clone(),
             log: if keep_log { ctx.log.clone() } else { vec![] },
+            env_reads: ctx.env_reads.clone(),
             preemptions: st.preempt[t],
         };
         st.results.push(res);
@@ -507,6 +508,7 @@ pub fn exec_jobs(sc: &C12Scenario, keep_log: bool) -> JobsResult {
             ctx.clock_step_ns = sc.clock_step_ns;
             ctx.cpus = sc.cpus;
             ctx.pid_value = sc.pid;
+            ctx.env_fuzz = sc.env_fuzz;
             st.ctxs[t] = Box::into_raw(ctx) as usize;
             st.pending[t] = Some((ri, job.clone(), sc.programs[job.program].clone()));
             st.runnable.push(t);
